@@ -91,22 +91,22 @@ func c17Run(c Case) (Result, error) {
 	// wrappers: SPOCKProve = Sign, SPOCKVerifyAgainstData = Verify, non-BLS keys refused
 	s1, _ := sk1.Sign(d1, hs)
 	if !bytes.Equal(s1, p1) {
-		return Result{}, fmt.Errorf("SPOCKProve differs from Sign")
+		return Result{}, implViolation("SPOCKProve differs from Sign")
 	}
 	va, e1 := crypto.SPOCKVerifyAgainstData(sk1.PublicKey(), p1, d1, hs)
 	vb, e2 := sk1.PublicKey().Verify(p1, d1, hs)
 	if va != vb || (e1 == nil) != (e2 == nil) || !va {
-		return Result{}, fmt.Errorf("SPOCKVerifyAgainstData differs from Verify")
+		return Result{}, implViolation("SPOCKVerifyAgainstData differs from Verify")
 	}
 	ek, _ := crypto.GeneratePrivateKey(crypto.ECDSAP256, rbytes(rr, 32))
 	if _, e := crypto.SPOCKProve(ek, d1, hs); !crypto.IsNotBLSKeyError(e) {
-		return Result{}, fmt.Errorf("SPOCKProve accepted a non-BLS key: %v", e)
+		return Result{}, implViolation("SPOCKProve accepted a non-BLS key: %v", e)
 	}
 	if _, e := crypto.SPOCKVerify(ek.PublicKey(), p1, sk2.PublicKey(), p2); !crypto.IsNotBLSKeyError(e) {
-		return Result{}, fmt.Errorf("SPOCKVerify accepted a non-BLS key: %v", e)
+		return Result{}, implViolation("SPOCKVerify accepted a non-BLS key: %v", e)
 	}
 	if _, e := crypto.SPOCKVerifyAgainstData(ek.PublicKey(), p1, d1, hs); !crypto.IsNotBLSKeyError(e) {
-		return Result{}, fmt.Errorf("SPOCKVerifyAgainstData accepted a non-BLS key: %v", e)
+		return Result{}, implViolation("SPOCKVerifyAgainstData accepted a non-BLS key: %v", e)
 	}
 	pk1, pk2 := sk1.PublicKey(), sk2.PublicKey()
 	id1, id2 := false, false
